@@ -65,7 +65,7 @@ package jen
 //@ interface Code.isNull(c; f)
 //@   requires f != nil
 //@   free requires tree: treeOK()
-//@   ensures [C13,C06,C08,C04] spec: result == null(c, Fof(f), mapof(f.imports))
+//@   ensures [C13,C06,C08,C04,C16] spec: result == null(c, Fof(f), mapof(f.imports))
 
 //@ interface Code.render(c; f, w, s)
 //@   requires recv: c != C_nil && c != C_pGroup(nil) && c != C_pStatement(nil) && wfC(c)
